@@ -93,7 +93,7 @@ def gen_struct(rng, idx, allow_nested=True):
             feats.append('skip')
         elif kind == 'recurse':
             nname = f"{name}N{i}"
-            nested_src += (f"#[derive(Debug, Clone, PartialEq, Difference)]\npub struct {nname} {{ pub x: i64, pub y: Option<String>, pub z: Vec<u8> }}\n"
+            nested_src += (f"#[derive(Debug, Clone, PartialEq, Difference)]\n#[cfg_attr(feature = \"sd\", derive(serde::Serialize, serde::Deserialize))]\npub struct {nname} {{ pub x: i64, pub y: Option<String>, pub z: Vec<u8> }}\n"
                            f"impl Mk for {nname} {{ fn mk(s: u64) -> Self {{ {nname} {{ x: Mk::mk(s), y: Mk::mk(s + 1), z: Mk::mk(s / 2) }} }} }}\n")
             opt = rng.random() < 0.4
             ty = f"Option<{nname}>" if opt else nname
@@ -200,7 +200,7 @@ def gen_enum(rng, idx):
     inst = f"{name}<i64>" if tp else name
     eattr = rng.choice(['', '', '#[difference(expose)]\n', f'#[difference(expose = "{name}Diff")]\n'])
     euse = ''
-    src = (rng.choice(DOCS) + "#[derive(Debug, Clone, PartialEq, Difference)]\n" + eattr + f"pub enum {name}{gen} {{\n" + ''.join(f"    {rng.choice(DOCS).strip()}\n    {v},\n" if rng.random() < 0.2 else f"    {v},\n" for v in variants) + "}\n"
+    src = (rng.choice(DOCS) + "#[derive(Debug, Clone, PartialEq, Difference)]\n#[cfg_attr(feature = \"sd\", derive(serde::Serialize, serde::Deserialize))]\n" + eattr + f"pub enum {name}{gen} {{\n" + ''.join(f"    {rng.choice(DOCS).strip()}\n    {v},\n" if rng.random() < 0.2 else f"    {v},\n" for v in variants) + "}\n"
            + euse + f"impl{'<T: Mk>' if tp else ''} Mk for {name}{gen} {{\n    fn mk(s: u64) -> Self {{\n        match s % {len(variants)} {{\n" + '\n'.join(arms[:-1]) + ('\n' if len(arms) > 1 else '')
            + arms[-1].replace(f"            {len(arms) - 1} =>", "            _ =>") + "\n        }\n    }\n}\n"
            + f"pub fn test() -> Result<(), String> {{\n    for seed in 0..12u64 {{\n        let a: {inst} = Mk::mk(seed);\n        let b: {inst} = Mk::mk(seed / 2 + 1);\n        let d = a.diff(&b);\n"
